@@ -455,6 +455,18 @@ def lay_out(sc, pattern):
     elif pattern == "stale":
         for (s, sh) in rng.sample(slots(), rng.randint(1, max(1, n - sc.k))):
             w.put(s, sh, older, how="stale")
+    elif pattern == "newer":
+        # the older version everywhere, fewer than k shares of the newest: the best recoverable version is not the
+        # one with the highest seqnum
+        for (s, sh) in slots():
+            w.put(s, sh, older, how="newer_old")
+        for (s, sh) in rng.sample(slots(), max(1, sc.k - 1))[:max(0, sc.k - 1)]:
+            w.put(s, sh, newest, how="newer_new")
+        if sc.k == 1:
+            # k = 1: every share is recoverable; use a damaged share of the newest version instead
+            (s, sh) = rng.choice(slots())
+            w.put(s, sh, newest, how="newer_new")
+            corrupt(s, sh)
     elif pattern == "comp" and comp:
         for (s, sh) in rng.sample(slots(), rng.randint(1, max(1, n - sc.k))):
             w.put(s, sh, comp, how="comp")
@@ -504,16 +516,17 @@ def lay_out(sc, pattern):
                         w.put(s2, sh, v, how="moved")
 
 
-PATTERNS = ["front", "front", "missing", "missing", "dup", "stale", "stale", "comp", "bad", "bad", "beyond", "gaps", "random",
-            "random", "random"]
+PATTERNS = ["front", "front", "missing", "missing", "dup", "stale", "stale", "newer", "comp", "bad", "bad", "beyond", "gaps",
+            "random", "random", "random"]
 
 
 def scenario(g, rng, idx, k, n, thorough):
     op = rng.choice(["publish"] * 6 + ["update"] * 2 + ["modify"] * 2)
-    fmt = "MDMF" if op == "update" else rng.choice(["SDMF", "MDMF"])
+    # update(): in place for MDMF, by re-encoding the whole file (the modify() loop) for SDMF
+    fmt = rng.choice(["MDMF", "MDMF", "SDMF"]) if op == "update" else rng.choice(["SDMF", "MDMF"])
     sc = Scen(g, rng, k, n, fmt, idx)
     w = sc.w
-    ln = rng.randint(13, 30) if fmt == "MDMF" else rng.randint(1, 24)
+    ln = rng.randint(13, 30) if fmt == "MDMF" else rng.randint(2, 24)
     if op == "update" and ln % SEGSIZE == 0:
         ln += 1
     c1 = w.new_content(ln, ln)
